@@ -56,6 +56,9 @@ claimed.update({
  "C18": dict(category="model_checking",
    text=("Bounded symbolic model checking of the real timer package: every sequence of up to 4 (thorough 5) operations from {Reset(d>0), Reset(0), Extend, time passes} is executed on the real New/Reset/Extend/stop/drain/C against a model of Go's runtime timers and channels, with heights, views, durations and EVERY clock reading (time.Now, time.Since, inside NewTimer) as non-decreasing solver variables. The solver proves for all of them: latest epoch reported, the timer delivers, never earlier than reset instant + duration + extensions, not later than the same counted from the end of the last operation, zero-duration reset fires at once with its own (not a stale) expiry; blocking forever is a violation. Counterexamples are replayed in real time against the compiled package."),
    design_ref="DESIGN.md §6 C18", technique="symbolic execution of go/ssa with a runtime-timer/channel model + SMT (cvc5 bit-vectors-as-integers)", note=TB + " The Go runtime's timer semantics (>= 1.23) are modelled, not executed; sequences longer than the bound are outside the claim."),
+ "C08": dict(category="model_checking",
+   text=("Bounded symbolic model checking of one real validator through a complete fault-free round: the harness plays the N-1 honest peers and the executor forks on every choice of the next message, so EVERY delivery order is explored (N=4: all 720 orders per role; N=3 with and without anti-MEV; N=1,2), including responses/pre-commits/commits before the proposal, up to two messages delivered before the height is entered (future-message cache, then Reset) and a duplicated message, each order with all contents (height, tip, timestamps, nonce, transaction, clock) symbolic. For every order the solver proves: block handed over exactly once, in view 0, equal to the proposal; no ChangeView/RecoveryRequest; own messages at most once; no panic. The multi-node statement follows because in a fault-free round each validator's emissions depend only on what it received."),
+   design_ref="DESIGN.md §6 C08", technique="bounded symbolic execution of go/ssa (all delivery orders by forking, symbolic contents) + SMT", note=TB + " Anti-MEV at N=4 and N>=5 are outside the bound; several consecutive rounds are covered by the inductive step checks (C05, C10), not by this run."),
 })
 
 na = {
